@@ -46,6 +46,9 @@ def decls(tier):
         if base == "DataClass" and len(tags) > 1:
             continue      # the lookup loops do not depend on the base class: 1-field DataClasses only
         out.append((base, tags))
+    for tag in ("alias", "alias-from", "alias-both", "ci-alias", "alias-no-output", "ci"):
+        out.append(("Schema-sub", (tag,)))
+        out.append(("Schema-sub", (tag, "alias-from")))
     # function declarations: the same menu as keyword parameters (fields that make no sense for functions are
     # rejected at declaration time by utype and counted)
     seen = set()
@@ -105,6 +108,13 @@ def build(base, fields, cexpr):
         src = func_source(fields, cexpr, positional=(base == "funcpos"))
         exec(src, env)
         return env["make"], src
+    if base == "Schema-sub":
+        # inheritance: the subclass under test re-declares the first field plainly (without its aliases) and inherits
+        # the others; the inputs still use every spelling of the base declaration
+        src = M.class_source("Schema", fields, "", name="B0") + f"class S(B0):\n" + \
+            (f"    __options__ = Options({cexpr})\n" if cexpr else "") + f"    {fields[0].name}: int = 9\n"
+        exec(src, env)
+        return env["S"], src
     src = M.class_source(base, fields, cexpr)
     exec(src, env)
     return env["S"], src
